@@ -51,6 +51,14 @@ def run(ctx):
         fam = "stream-reader" if e["entry"] == "stream" else ("header-decode" if e["entry"] == "header" else "slice-parser")
         cls = {"panic": "panic", "abort": "abort"}.get(kind, "verdict")
         ctx.violation(f"wire-random:{cls}:{fam}", f"{e['route']} on a {e['buflen']}-byte buffer: outcome {e['outcome']} ({e.get('msg', '')}) contradicts the specification ({kind}); header bytes {e['hb']}", e)
+    # on the wire: servers with a read timeout must not re-frame the stream after a timed-out partial header
+    to = ctx.work / "c02to.json"
+    ctx.vh("srv-c02-timeouts", "--out", to, timeout=300)
+    for c in json.loads(to.read_text())["cases"]:
+        ctx.coverage["evaluations"] += 1
+        if c["dispatched"] or c["response_bytes"] >= 48:
+            ctx.violation(f"wire-timeout:{c['server']}", f"{c['server']} with a read timeout: {c['junk']} junk bytes, a stall longer than the timeout, then a valid frame - the frame was "
+                          f"dispatched {c['dispatched']} time(s) and {c['response_bytes']} response bytes came back although the stream's first 48 bytes are not a header", c)
     ctx.coverage["exhaustive"] = True
     ctx.coverage["explanation"] = "exhaustive over the boundary-class product of MC_RepeWire (LenClasses x LenClasses x Totals x BufLens x magic); random inputs are samples"
     ctx.assume("error KIND is not judged (the property only demands an error); disagreements about the reason are not violations",
